@@ -114,6 +114,7 @@ type sched struct {
 	threads      []*thread
 	live         []*thread // threads that have not finished, in creation order
 	cur          *thread
+	reporting    bool // the run loop is collecting the result: no thread is running
 	points       []Point
 	finish       chan struct{}
 	finished     bool
@@ -222,6 +223,7 @@ func Run(cfg Config, body func()) *Result {
 }
 
 func (s *sched) result() *Result {
+	s.reporting = true
 	r := &Result{Points: s.points, Steps: s.steps, Aborted: s.aborted, Panics: s.panics, HB: s.hb, TraceHash: s.th, Err: s.err, Log: s.log, MaxLive: len(s.threads)}
 	for _, t := range s.threads {
 		ti := ThreadInfo{ID: t.id, Name: t.name, Lib: t.lib}
@@ -235,6 +237,7 @@ func (s *sched) result() *Result {
 		}
 		r.Threads = append(r.Threads, ti)
 	}
+	r.Err = s.err
 	return r
 }
 
@@ -325,6 +328,11 @@ func (s *sched) stop(me *thread) {
 func (s *sched) fatal(msg string) {
 	if s.err == "" {
 		s.err = msg
+	}
+	if s.reporting {
+		// a predicate evaluated by the run loop itself while it collects the result (not by a thread): there is
+		// nobody to park
+		return
 	}
 	s.stop(s.cur)
 }
